@@ -112,7 +112,7 @@ class Unit:
     def fn(self, file, path, spec="", ret=None, subs=None, rules_=DEFAULT_FN_RULES, wrap=None, name=None,
            attrs="", loops=None, props=None, label=None, pre="", post_subs=None, vis=True, canary=True,
            covers=None, header_subs=None, no_body=False, proof_at_start="", chains=None, closures=None,
-           index_loops=None):
+           index_loops=None, regions=None):
         """copy a function; weave `spec` (requires/ensures/decreases text) between signature and body.
 
         loops: {k: dict(prefix="for l in self.leaders.iter()", iter=None|"it", inv="...", decreases="...")}
@@ -140,6 +140,8 @@ class Unit:
             body, n = RULE_FUNCS[r](body)
             if n:
                 fired.append((r, n))
+        for rg in regions or ():
+            body = apply_region(body, rg, fired)
         body = self._apply_subs(body, subs, fired)
         for ch in chains or ():
             body = apply_chain(body, ch, fired)
@@ -458,6 +460,34 @@ def apply_chain(body, ch, fired):
         for k in (ch.get("closures") or {}):
             fired.append(("W-closure", 1, args[k][:80]))
     return rules.apply_edits(body, edits)
+
+
+def apply_region(body, rg, fired):
+    """R-stub on a statement region: from the start of the statement that begins with `first` to the end (`;`) of the statement
+    containing `last`; both anchors must match exactly once, `last` after `first`. rg = (first, last, replacement)."""
+    first, last, rep = rg
+    toks = tokenize(body)
+    h1 = find_seq(toks, texts(tokenize(first)))
+    if len(h1) != 1:
+        raise LostAnchor("region start %r matches %d times" % (first, len(h1)))
+    h2 = [h for h in find_seq(toks, texts(tokenize(last))) if h >= h1[0]]
+    if len(h2) != 1:
+        raise LostAnchor("region end %r matches %d times after the start" % (last, len(h2)))
+    j = h2[0]
+    while j < len(toks):
+        t = toks[j]
+        if t.kind == "punct" and t.text in OPEN:
+            j = match_close(toks, j) + 1
+            continue
+        if t.text == ";":
+            break
+        j += 1
+    if j >= len(toks):
+        raise LostAnchor("region end: no `;`")
+    a, b = toks[h1[0]].start, toks[j].end
+    seg = body[a:b]
+    fired.append(("sub", 1, seg if len(seg) < 1500 else seg[:1500] + "…", rep + "   /* R-stub */"))
+    return body[:a] + rep + "\n" * max(0, seg.count("\n") - rep.count("\n")) + body[b:]
 
 
 def apply_closure(body, cs, fired):
